@@ -33,6 +33,7 @@ FILE_DEPS = {
     "enc/lzma2_writer.rs": ["enc/range_enc.rs"],
     "enc/lzma2_writer_mt.rs": ["enc/lzma2_writer.rs"],
     "lzma_reader.rs": ["range_dec.rs", "decoder.rs", "state.rs"],
+    "lz/hc4.rs": ["lz/lz_encoder.rs"],
     "enc/range_enc.rs": ["range_dec.rs"],
     "enc/encoder.rs": ["enc/range_enc.rs", "range_dec.rs", "decoder.rs", "state.rs"],
     "lzip/reader.rs": ["lzip.rs", "lzma_reader.rs", "range_dec.rs"],
@@ -453,6 +454,40 @@ U(id="C08.mt.read", props=["C08", "C07", "C06"], file="lzma2_reader_mt.rs", harn
   contract_stubs=["get_next_uncompressed_chunk -> script of decoded units [2 bytes, empty, 1 byte, end] (own body: reassembly)", "spawn_worker_thread -> ghost counter", "Arc::drop_slow -> leak"],
   kind="bounded", bound="unit script of 3 units with an empty one in the middle, reads of 2 bytes",
   functions=[("src/lzma2_reader_mt.rs", "read", "Read for LZMA2ReaderMT")], contract=_MTR)
+
+U(id="C14.nostd", props=["C14", "C05"], file="no_std.rs", features=NOSTD, harnesses=["c14_nostd_read_exact", "c14_nostd_write_all", "c14_nostd_slice_io"], stubs=[],
+  contract_stubs=["io_any source / sink: short transfers, Interrupted, hard error at a chosen call"],
+  functions=[("src/no_std.rs", "default_read_exact"), ("src/no_std.rs", "write_all"), ("src/no_std.rs", "read", "Read for &[u8]"), ("src/no_std.rs", "write", "Write for &mut [u8]")],
+  contract="no_std read_exact / write_all meet the contract std documents (all-or-error, Interrupted retried, error kind preserved, nothing read beyond the request); slice Read/Write copy min(len) bytes and advance; full slice sink => WriteZero")
+U(id="C01.lze.preset", props=["C01", "C19"], file="lz/lz_encoder.rs", harnesses=["c01_lze_preset_short", "c01_lze_preset_long"], stubs=[],
+  contract_stubs=["dyn MatchFind -> MfGhost"], kind="bounded", bound="dictionary size 8, preset dictionaries of 5 and 12 bytes, any content",
+  functions=[("src/lz/lz_encoder.rs", "set_preset_dict", "LZEncoderData")],
+  contract="the encoder window is primed with the last min(len, dict_size) bytes of the preset dictionary (what the decoder keeps), positions offered to the match finder once")
+
+_MFN = "match finder constructors: cyclic window = dict_size + 1 exactly (independent of the backing table's rounded length), start position dict_size + 1, table >= window and zeroed, depth rule"
+U(id="C14.mf.new", props=["C14", "C13", "C15", "C01"], file="lz/hc4.rs", extra_files=["lz/bt4.rs"], harnesses=["c14_hc4_new_4096", "c14_hc4_new_4100"], stubs=[],
+  kind="bounded", bound="dictionary sizes 4096 and 4100 (the second makes the aligned table longer than the window), every nice_len / depth; optimization build",
+  functions=[("src/lz/hc4.rs", "new", "HC4")], contract=_MFN)
+U(id="C14.mf.new.bt4", props=["C14", "C13", "C15", "C01"], file="lz/bt4.rs", harnesses=["c14_bt4_new_4096", "c14_bt4_new_4100"], stubs=[],
+  kind="bounded", bound="dictionary sizes 4096 and 4100, every nice_len / depth; optimization build",
+  functions=[("src/lz/bt4.rs", "new", "BT4")], contract=_MFN)
+U(id="C14.mf.new.safe", props=["C14"], file="lz/hc4.rs", features=NOOPT, harnesses=["c14_hc4_new_4096", "c14_hc4_new_4100"], stubs=[],
+  kind="bounded", bound="as C14.mf.new, build without the optimization feature (Vec tables)",
+  functions=[("src/lz/hc4.rs", "new", "HC4")], contract=_MFN + " - same contract in the other cfg build => the twins agree")
+U(id="C01.mf.skip", props=["C01", "C13"], file="lz/hc4.rs", harnesses=["c01_hc4_skip_sync"], stubs=[],
+  kind="bounded", bound="fresh HC4 (dict 4096), window of 32 bytes, skip of <= 6 positions",
+  functions=[("src/lz/hc4.rs", "skip", "MatchFind for HC4"), ("src/lz/hc4.rs", "move_pos", "HC4")],
+  contract="HC4::skip(n) meets the MatchFind contract assumed by C01.lze.pending: n window steps, a position inserted iff >= 4 bytes look-ahead, lz_pos - (dict+1) = read_pos + 1 - pending, cyclic_pos follows")
+
+PARK(id="C03.xz.backward", props=["C03", "C02"], file="xz/writer.rs", harnesses=["c03_xz_footer_backward_n129", "c03_xz_footer_backward_n130", "c03_xz_footer_backward_n127"],
+  kind="bounded", bound="127, 129 and 130 index records of fixed sizes (record count field of 1 and 2 bytes; index sizes 1 and 2 mod 4 before padding)",
+  functions=[("src/xz/writer.rs", "write_stream_footer"), ("src/xz.rs", "count_multibyte_integer_size_for_value")],
+  contract="footer Backward Size = real index size / 4 - 1 (xz-file-format 2.1.2.1) also when the Number of Records field takes 2 bytes")
+
+U(id="C05.rc.src", props=["C05"], file="range_dec.rs", harnesses=["c05_rc_stream_fetch"], known_findings=[{"harness": "kf_c05_rc_stream_error_becomes_zero_byte"}],
+  stubs=ERR + ["io_any source"],
+  functions=[("src/range_dec.rs", "read_u8", "RangeReader for T"), ("src/range_dec.rs", "try_read_u8", "RangeReader for T"), ("src/range_dec.rs", "read_u32_be", "RangeReader for T")],
+  contract="stream byte fetch: bytes in order across Interrupted; try_read_u8 / read_u32_be return the source's error kind (EOF, hard error); known finding D19: read_u8 (used by normalize) turns a source error into the byte 0x00")
 
 # ---------------------------------------------------------------------------------------- quick-tier budget
 # Harnesses kept in the quick tier per unit; every other harness of the unit runs in the thorough tier only.
